@@ -37,7 +37,7 @@ pub fn plan() -> Plan {
     let profiles = vec![hostile, single, tiny];
     Plan {
         profiles,
-        directed: vec![("never-collecting-client", |h| h.never_collecting_client(260)), ("alias-limit-exceeded", |h| h.alias_limit_exceeded())],
+        directed: vec![("never-collecting-client", |h| h.never_collecting_client(260)), ("alias-limit-exceeded", |h| h.alias_limit_exceeded()), ("shared-turn-holder-stuck", |h| h.shared_turn_holder_stuck())],
         quick_histories: 1500,
         thorough_histories: 1_200_000,
         s5: None,
